@@ -1,4 +1,5 @@
 import FCA.Proofs.Lindig
+import FCA.Proofs.Assemble
 /-
 C03 — The lattice contains exactly the formal concepts of the context, once each.
 
@@ -73,6 +74,27 @@ theorem C03_all_crosses (K : Ctx) (h : K.WF) (hn : 0 < K.n) (hall : ∀ i j, i <
     have hb := hall' b (by simp)
     rw [ha, hb] at hnd
     simp at hnd
+
+/-- `Lattice.__init__` turns the yielded records into concepts one by one: `iter(context.lattice)` has
+exactly the (extent, intent) pairs of the generator, in the same order — so all of the above holds
+for the lattice object, and `len(lattice)` is the number of records -/
+theorem C03_lattice_pairs (K : Ctx) :
+    (mkLattice K).map (fun c => (c.extent, c.intent)) = (lindigLattice K).map (fun r => (r.extent, r.intent)) ∧
+    (mkLattice K).length = (lindigLattice K).length :=
+  ⟨assemble_pairs K _, assemble_length K _⟩
+
+theorem C03_lattice_iff (K : Ctx) (h : K.WF) (A B : Nat) :
+    (A, B) ∈ (mkLattice K).map (fun c => (c.extent, c.intent)) ↔ isConcept K A B := by
+  rw [(C03_lattice_pairs K).1]
+  constructor
+  · intro hm
+    obtain ⟨r, hr, he⟩ := List.mem_map.mp hm
+    simp only [Prod.mk.injEq] at he
+    rw [← he.1, ← he.2]
+    exact C03_sound K h r hr
+  · intro hc
+    obtain ⟨r, hr, h1, h2⟩ := C03_complete K h A B hc
+    exact List.mem_map.mpr ⟨r, hr, by rw [h1, h2]⟩
 
 def C03_exK : Ctx := mkCtx 3 3 #[0b011, 0b001, 0b110]
 theorem C03_exK_WF : C03_exK.WF := mkCtx_WF 3 3 _ rfl (by intro i hi; interval_cases i <;> decide)
